@@ -55,6 +55,14 @@ func (k Keeper) IterateMatureWithdraws(ctx sdk.Context, callback func(withdraw t
 func (k Keeper) CreateWithdraw(ctx sdk.Context, address sdk.AccAddress, amount sdk.Coins) error {
 	params := k.GetLockedPoolParams(ctx)
 	dueBlock := ctx.BlockHeight() + params.LockedInBlocks
+	// A withdrawal is keyed by (due block, address): merge with a pending
+	// withdrawal of the same operator due at the same block instead of
+	// overwriting it.
+	if bz := ctx.KVStore(k.storeKey).Get(types.WithdrawStoreKey(address, dueBlock)); bz != nil {
+		var pending types.Withdraw
+		k.cdc.MustUnmarshalBinaryLengthPrefixed(bz, &pending)
+		amount = pending.Amount.Add(amount...)
+	}
 	withdraw := types.NewWithdraw(address, amount, dueBlock)
 	k.SetWithdraw(ctx, withdraw)
 	return nil
